@@ -1,1 +1,912 @@
-//! C07 harnesses (Engine K)
+//! C07 — a position earns fees only while the price is inside its range (Engine K part).
+//!
+//! Inductive-step lemmas over the wrapping u128 bookkeeping (`fee_growth_outside_a/b`, `fee_growth_global_a/b`,
+//! position checkpoints), each decided for the Anchor functions of `manager::tick_manager` /
+//! `manager::position_manager` and for their Pinocchio ports on the *same symbolic bytes*:
+//!  L1  global += x while the current tick does not move  =>  inside' - inside == x iff lower <= cur < upper
+//!  L2  crossing an initialised tick (outside := global - outside) with the swap loop's tick shift leaves `inside`
+//!      of every range unchanged
+//!  L3  (re)initialisation convention of `next_tick_modify_liquidity_update`
+//!  L4  position credit: owed' = owed + mul_shift_right(L, inside - checkpoint) or + 0 on overflow; checkpoint := inside
+//! Composition of these steps over unbounded histories / position sets is a written argument (DESIGN §4).
+use crate::common::*;
+use ::whirlpool::manager::position_manager::next_position_modify_liquidity_update;
+use ::whirlpool::manager::tick_manager::*;
+use ::whirlpool::pinocchio::ported::manager_liquidity_manager::*;
+use ::whirlpool::pinocchio::state::whirlpool::tick_array::TickUpdate as PTickUpdate;
+use ::whirlpool::pinocchio::state::whirlpool::{
+    MemoryMappedPosition, MemoryMappedTick, MemoryMappedWhirlpoolRewardInfo,
+};
+use ::whirlpool::state::*;
+use anchor_lang::prelude::Pubkey;
+
+// ------------------------------------------------------------------------------------------------
+// shared byte-level views (also used by c05.rs / c11.rs)
+
+/// a tick as stored in a tick-array account (113 bytes, packed)
+pub(crate) type TB = [u8; 113];
+
+pub(crate) fn any_tick() -> TB {
+    let b: TB = kani::any();
+    kani::assume(b[0] <= 1); // `initialized` is a bool in every account the program writes
+    b
+}
+/// Anchor zero-copy view
+pub(crate) fn tick_of(b: &TB) -> Tick {
+    assert!(b[0] <= 1);
+    unsafe { core::ptr::read_unaligned(b.as_ptr() as *const Tick) }
+}
+pub(crate) fn tick_bytes(t: &Tick) -> TB {
+    let mut b = [0u8; 113];
+    unsafe { core::ptr::write_unaligned(b.as_mut_ptr() as *mut Tick, *t) };
+    b
+}
+/// Pinocchio memory-mapped view
+pub(crate) fn mtick(b: &TB) -> &MemoryMappedTick {
+    unsafe { &*(b.as_ptr() as *const MemoryMappedTick) }
+}
+pub(crate) fn mtick_mut(b: &mut TB) -> &mut MemoryMappedTick {
+    unsafe { &mut *(b.as_mut_ptr() as *mut MemoryMappedTick) }
+}
+pub(crate) fn t_init(b: &TB) -> bool {
+    b[0] != 0
+}
+pub(crate) fn rd128(b: &[u8], o: usize) -> u128 {
+    let mut x = [0u8; 16];
+    x.copy_from_slice(&b[o..o + 16]);
+    u128::from_le_bytes(x)
+}
+pub(crate) fn rd64(b: &[u8], o: usize) -> u64 {
+    let mut x = [0u8; 8];
+    x.copy_from_slice(&b[o..o + 8]);
+    u64::from_le_bytes(x)
+}
+pub(crate) fn rd32(b: &[u8], o: usize) -> i32 {
+    let mut x = [0u8; 4];
+    x.copy_from_slice(&b[o..o + 4]);
+    i32::from_le_bytes(x)
+}
+pub(crate) fn rd_key(b: &[u8], o: usize) -> [u8; 32] {
+    let mut x = [0u8; 32];
+    x.copy_from_slice(&b[o..o + 32]);
+    x
+}
+pub(crate) fn t_net(b: &TB) -> i128 {
+    rd128(b, 1) as i128
+}
+pub(crate) fn t_gross(b: &TB) -> u128 {
+    rd128(b, 17)
+}
+pub(crate) fn t_out_a(b: &TB) -> u128 {
+    rd128(b, 33)
+}
+pub(crate) fn t_out_b(b: &TB) -> u128 {
+    rd128(b, 49)
+}
+pub(crate) fn t_out_r(b: &TB, i: usize) -> u128 {
+    rd128(b, 65 + 16 * i)
+}
+/// field-wise equality of two stored ticks (all 113 bytes are covered by the fields)
+pub(crate) fn same_tick(a: &TB, b: &TB) -> bool {
+    a[0] == b[0]
+        && t_net(a) == t_net(b)
+        && t_gross(a) == t_gross(b)
+        && t_out_a(a) == t_out_a(b)
+        && t_out_b(a) == t_out_b(b)
+        && t_out_r(a, 0) == t_out_r(b, 0)
+        && t_out_r(a, 1) == t_out_r(b, 1)
+        && t_out_r(a, 2) == t_out_r(b, 2)
+}
+
+/// the three `WhirlpoolRewardInfo` records as stored in the whirlpool account (3 x 128 bytes:
+/// mint, vault, extension, emissions_per_second_x64, growth_global_x64)
+pub(crate) struct Rw {
+    pub b: [u8; 384],
+}
+impl Rw {
+    pub fn any() -> Rw {
+        Rw { b: kani::any() }
+    }
+    pub fn initialized(&self, i: usize) -> bool {
+        rd_key(&self.b, 128 * i) != [0u8; 32]
+    }
+    pub fn emissions(&self, i: usize) -> u128 {
+        rd128(&self.b, 128 * i + 96)
+    }
+    pub fn growth(&self, i: usize) -> u128 {
+        rd128(&self.b, 128 * i + 112)
+    }
+    pub fn growths(&self) -> [u128; 3] {
+        [self.growth(0), self.growth(1), self.growth(2)]
+    }
+    pub fn with_growths(&self, g: &[u128; 3]) -> Rw {
+        let mut b = self.b;
+        for i in 0..3 {
+            b[128 * i + 112..128 * i + 128].copy_from_slice(&g[i].to_le_bytes());
+        }
+        Rw { b }
+    }
+    /// Anchor (borsh-deserialised) view
+    pub fn anchor(&self) -> [WhirlpoolRewardInfo; 3] {
+        let mut r = [WhirlpoolRewardInfo::default(); 3];
+        for i in 0..3 {
+            let o = 128 * i;
+            r[i].mint = Pubkey::new_from_array(rd_key(&self.b, o));
+            r[i].vault = Pubkey::new_from_array(rd_key(&self.b, o + 32));
+            r[i].extension = rd_key(&self.b, o + 64);
+            r[i].emissions_per_second_x64 = rd128(&self.b, o + 96);
+            r[i].growth_global_x64 = rd128(&self.b, o + 112);
+        }
+        r
+    }
+    /// Pinocchio memory-mapped view
+    pub fn pino(&self) -> &[MemoryMappedWhirlpoolRewardInfo; 3] {
+        unsafe { &*(self.b.as_ptr() as *const [MemoryMappedWhirlpoolRewardInfo; 3]) }
+    }
+}
+
+/// a position account (216 bytes incl. discriminator)
+pub(crate) type PB = [u8; 216];
+pub(crate) fn mpos(b: &PB) -> &MemoryMappedPosition {
+    unsafe { &*(b.as_ptr() as *const MemoryMappedPosition) }
+}
+/// Anchor (borsh-deserialised) view: field order of `state::Position` after the 8-byte discriminator
+pub(crate) fn pos_of(b: &PB) -> Position {
+    let mut p = Position::default();
+    p.whirlpool = Pubkey::new_from_array(rd_key(b, 8));
+    p.position_mint = Pubkey::new_from_array(rd_key(b, 40));
+    p.liquidity = rd128(b, 72);
+    p.tick_lower_index = rd32(b, 88);
+    p.tick_upper_index = rd32(b, 92);
+    p.fee_growth_checkpoint_a = rd128(b, 96);
+    p.fee_owed_a = rd64(b, 112);
+    p.fee_growth_checkpoint_b = rd128(b, 120);
+    p.fee_owed_b = rd64(b, 136);
+    for i in 0..3 {
+        p.reward_infos[i].growth_inside_checkpoint = rd128(b, 144 + 24 * i);
+        p.reward_infos[i].amount_owed = rd64(b, 160 + 24 * i);
+    }
+    p
+}
+
+/// The two implementations under one interface; ticks / rewards / positions are the same bytes for both.
+pub(crate) trait Eng {
+    fn fee_inside(cur: i32, lo: &TB, tl: i32, up: &TB, tu: i32, ga: u128, gb: u128) -> (u128, u128);
+    fn reward_inside(cur: i32, lo: &TB, tl: i32, up: &TB, tu: i32, rw: &Rw) -> [u128; 3];
+    /// `next_tick_modify_liquidity_update`; Ok = the tick bytes after applying the update, Err = error code
+    fn modify(t: &TB, idx: i32, cur: i32, ga: u128, gb: u128, rw: &Rw, delta: i128, upper: bool) -> Result<TB, u32>;
+    /// `next_position_modify_liquidity_update`
+    fn pos_update(p: &PB, delta: i128, ia: u128, ib: u128, ri: &[u128; 3]) -> Result<PositionUpdate, u32>;
+}
+
+pub(crate) struct Anchor;
+pub(crate) struct Pino;
+
+impl Eng for Anchor {
+    fn fee_inside(cur: i32, lo: &TB, tl: i32, up: &TB, tu: i32, ga: u128, gb: u128) -> (u128, u128) {
+        next_fee_growths_inside(cur, &tick_of(lo), tl, &tick_of(up), tu, ga, gb)
+    }
+    fn reward_inside(cur: i32, lo: &TB, tl: i32, up: &TB, tu: i32, rw: &Rw) -> [u128; 3] {
+        next_reward_growths_inside(cur, &tick_of(lo), tl, &tick_of(up), tu, &rw.anchor())
+    }
+    fn modify(t: &TB, idx: i32, cur: i32, ga: u128, gb: u128, rw: &Rw, delta: i128, upper: bool) -> Result<TB, u32> {
+        match next_tick_modify_liquidity_update(&tick_of(t), idx, cur, ga, gb, &rw.anchor(), delta, upper) {
+            Ok(u) => {
+                let mut n = tick_of(t);
+                n.update(&u);
+                Ok(tick_bytes(&n))
+            }
+            Err(e) => Err(ecode(e)),
+        }
+    }
+    fn pos_update(p: &PB, delta: i128, ia: u128, ib: u128, ri: &[u128; 3]) -> Result<PositionUpdate, u32> {
+        next_position_modify_liquidity_update(&pos_of(p), delta, ia, ib, ri).map_err(ecode)
+    }
+}
+
+impl Eng for Pino {
+    fn fee_inside(cur: i32, lo: &TB, tl: i32, up: &TB, tu: i32, ga: u128, gb: u128) -> (u128, u128) {
+        pino_next_fee_growths_inside(cur, mtick(lo), tl, mtick(up), tu, ga, gb)
+    }
+    fn reward_inside(cur: i32, lo: &TB, tl: i32, up: &TB, tu: i32, rw: &Rw) -> [u128; 3] {
+        pino_next_reward_growths_inside(cur, mtick(lo), tl, mtick(up), tu, rw.pino(), &rw.growths())
+    }
+    fn modify(t: &TB, idx: i32, cur: i32, ga: u128, gb: u128, rw: &Rw, delta: i128, upper: bool) -> Result<TB, u32> {
+        match pino_next_tick_modify_liquidity_update(mtick(t), idx, cur, ga, gb, &rw.growths(), delta, upper) {
+            Ok(u) => {
+                let mut n = *t;
+                mtick_mut(&mut n).update(&u);
+                Ok(n)
+            }
+            Err(e) => {
+                let c = ucode(&e);
+                core::mem::forget(e);
+                Err(c)
+            }
+        }
+    }
+    fn pos_update(p: &PB, delta: i128, ia: u128, ib: u128, ri: &[u128; 3]) -> Result<PositionUpdate, u32> {
+        match verif_pino_next_position_modify_liquidity_update(mpos(p), delta, ia, ib, ri) {
+            Ok(u) => Ok(u),
+            Err(e) => {
+                let c = ucode(&e);
+                core::mem::forget(e);
+                Err(c)
+            }
+        }
+    }
+}
+
+/// tick crossing as done by the swap loop (Anchor only: swap has no Pinocchio port): bytes after `next_tick_cross_update`
+pub(crate) fn cross(t: &TB, ga: u128, gb: u128, rw: &Rw) -> TB {
+    let mut n = tick_of(t);
+    match next_tick_cross_update(&n, ga, gb, &rw.anchor()) {
+        Ok(u) => n.update(&u),
+        Err(_) => assert!(false, "next_tick_cross_update never fails"),
+    }
+    tick_bytes(&n)
+}
+
+/// C05's invariant on a stored tick, as far as these lemmas need it: initialized <=> gross != 0, and a tick that
+/// bounds no position has net == 0.
+pub(crate) fn assume_tick_inv(t: &TB) {
+    kani::assume(t_init(t) == (t_gross(t) != 0));
+    if !t_init(t) {
+        kani::assume(t_net(t) == 0);
+    }
+}
+
+/// The tick a bound stands for: itself if initialised, otherwise what `next_tick_modify_liquidity_update` stores when
+/// the first liquidity `d > 0` is added at (cur, ga, gb, rw) — "the convention applied by the code".
+pub(crate) fn effective<E: Eng>(t: &TB, idx: i32, cur: i32, ga: u128, gb: u128, rw: &Rw, d: i128, upper: bool) -> TB {
+    if t_init(t) {
+        *t
+    } else {
+        match E::modify(t, idx, cur, ga, gb, rw, d, upper) {
+            Ok(n) => {
+                assert!(t_init(&n));
+                n
+            }
+            Err(_) => {
+                assert!(false, "first deposit on an empty tick cannot fail");
+                *t
+            }
+        }
+    }
+}
+
+// ------------------------------------------------------------------------------------------------
+// Case splitting. CaDiCaL needs 10x longer for one instance that mixes the placements of the current tick than for
+// the separate instances (measured: 8 s + 10 s + 35 s separately, 569 s together), so every lemma is decided per
+// placement in its own harness; the placements partition all i32 triples (cur, lower < upper):
+pub(crate) const BELOW: u8 = 0; // cur < lower
+pub(crate) const INSIDE: u8 = 1; // lower <= cur < upper (incl. cur == lower)
+pub(crate) const ABOVE: u8 = 2; // cur >= upper (incl. cur == upper)
+pub(crate) fn assume_place(place: u8, cur: i32, tl: i32, tu: i32) {
+    match place {
+        BELOW => kani::assume(cur < tl),
+        INSIDE => kani::assume(tl <= cur && cur < tu),
+        _ => kani::assume(cur >= tu),
+    }
+}
+/// a proved intermediate fact: asserted (so it is a verification condition like any other), then available to the
+/// following conditions. Sound by construction; only shortens the SAT proofs.
+pub(crate) fn hint(c: bool) {
+    assert!(c);
+    kani::assume(c);
+}
+/// closed form of `inside` (wrapping), used only inside `hint`s:
+/// below = initialised ? (cur < lower ? g - ol : ol) : g;  above = initialised ? (cur < upper ? ou : g - ou) : 0
+pub(crate) fn closed(below_lower: bool, below_upper: bool, li: bool, ol: u128, ui: bool, ou: u128, g: u128) -> u128 {
+    match (li, ui) {
+        (true, true) => {
+            if below_lower {
+                ol.wrapping_sub(ou)
+            } else if below_upper {
+                g.wrapping_sub(ol).wrapping_sub(ou)
+            } else {
+                ou.wrapping_sub(ol)
+            }
+        }
+        (false, true) => {
+            if below_upper {
+                0u128.wrapping_sub(ou)
+            } else {
+                ou.wrapping_sub(g)
+            }
+        }
+        (true, false) => {
+            if below_lower {
+                ol
+            } else {
+                g.wrapping_sub(ol)
+            }
+        }
+        (false, false) => 0,
+    }
+}
+/// `E::fee_inside` together with the hint that it equals the closed form
+pub(crate) fn fee_inside_h<E: Eng>(cur: i32, lo: &TB, tl: i32, up: &TB, tu: i32, ga: u128, gb: u128) -> (u128, u128) {
+    let i = E::fee_inside(cur, lo, tl, up, tu, ga, gb);
+    hint(i.0 == closed(cur < tl, cur < tu, t_init(lo), t_out_a(lo), t_init(up), t_out_a(up), ga));
+    hint(i.1 == closed(cur < tl, cur < tu, t_init(lo), t_out_b(lo), t_init(up), t_out_b(up), gb));
+    i
+}
+
+// ------------------------------------------------------------------------------------------------
+// L1
+
+/// L1 for a range whose bounds are both initialised (arbitrary `outside` values — this includes ticks freshly
+/// initialised by the convention, see `conv`): after global_a/b += xa/xb with the current tick fixed,
+/// inside' - inside == x iff lower <= cur < upper, else 0.
+fn l1<E: Eng>(place: u8) {
+    let lo = any_tick();
+    let up = any_tick();
+    let tl: i32 = kani::any();
+    let tu: i32 = kani::any();
+    let cur: i32 = kani::any();
+    let ga: u128 = kani::any();
+    let gb: u128 = kani::any();
+    let xa: u128 = kani::any();
+    let xb: u128 = kani::any();
+    kani::assume(tl < tu);
+    kani::assume(t_init(&lo) && t_init(&up));
+    assume_place(place, cur, tl, tu);
+
+    let i0 = fee_inside_h::<E>(cur, &lo, tl, &up, tu, ga, gb);
+    let i1 = fee_inside_h::<E>(cur, &lo, tl, &up, tu, ga.wrapping_add(xa), gb.wrapping_add(xb));
+    let in_range = tl <= cur && cur < tu;
+    assert!(i1.0.wrapping_sub(i0.0) == if in_range { xa } else { 0 });
+    assert!(i1.1.wrapping_sub(i0.1) == if in_range { xb } else { 0 });
+
+    kani::cover!(xa != 0 && xb != 0, "growth");
+    kani::cover!(ga.checked_add(xa).is_none(), "accumulator wraps");
+    if place != BELOW {
+        kani::cover!(cur == tl || cur == tu, "current tick on a bound");
+    }
+}
+
+/// Convention for uninitialised bounds, every initialised/uninitialised combination: `inside` computed by the code on
+/// the stored ticks equals `inside` on the effective ticks (an uninitialised bound replaced by the tick that
+/// `next_tick_modify_liquidity_update` creates for a first deposit at the same (cur, global)). Hence the checkpoint
+/// a position takes when it first adds liquidity is the `inside` of its freshly initialised range, to which L1/L2
+/// (both bounds initialised) apply from then on: growth before the deposit and growth out of range are excluded.
+fn conv<E: Eng>(place: u8) {
+    let lo = any_tick();
+    let up = any_tick();
+    let tl: i32 = kani::any();
+    let tu: i32 = kani::any();
+    let cur: i32 = kani::any();
+    let ga: u128 = kani::any();
+    let gb: u128 = kani::any();
+    let rw = Rw::any();
+    let dl: i128 = kani::any();
+    let du: i128 = kani::any();
+    kani::assume(tl < tu);
+    kani::assume(dl > 0 && du > 0);
+    kani::assume(!t_init(&lo) || !t_init(&up));
+    assume_tick_inv(&lo);
+    assume_tick_inv(&up);
+    assume_place(place, cur, tl, tu);
+
+    let elo = effective::<E>(&lo, tl, cur, ga, gb, &rw, dl, false);
+    let eup = effective::<E>(&up, tu, cur, ga, gb, &rw, du, true);
+    let i0 = fee_inside_h::<E>(cur, &lo, tl, &up, tu, ga, gb);
+    let ie = fee_inside_h::<E>(cur, &elo, tl, &eup, tu, ga, gb);
+    assert!(i0 == ie, "uninitialised-bound convention == freshly initialised tick");
+
+    kani::cover!(!t_init(&lo) && !t_init(&up), "both fresh");
+    kani::cover!(t_init(&lo) && !t_init(&up), "upper fresh");
+    kani::cover!(!t_init(&lo) && t_init(&up), "lower fresh");
+}
+
+// ------------------------------------------------------------------------------------------------
+// L2
+
+pub(crate) const LOWER: u8 = 0; // the crossed tick is the lower bound
+pub(crate) const UPPER: u8 = 1; // ... the upper bound
+pub(crate) const OTHER: u8 = 2; // ... neither bound (below, above or strictly inside the range)
+
+/// symbolic crossing scenario shared with c11.rs: returns (cur1, lo', up') after crossing tick `t`
+/// (a bound equal to `t` is flipped by `next_tick_cross_update`, others are untouched), having assumed what the swap
+/// loop guarantees: the crossed tick is initialised; it is the *next initialised* tick from cur0 in the direction of
+/// travel (C10), so no other initialised bound of the range lies in the jumped interval; and
+/// a_to_b: cur0 >= t, cur1 = t - 1;  b_to_a: cur0 < t, cur1 = t  (swap_manager.rs, "shift the index by 1").
+pub(crate) fn crossing(
+    which: u8, lo: &TB, tl: i32, up: &TB, tu: i32, t: i32, cur0: i32, a_to_b: bool, ga: u128, gb: u128, rw: &Rw,
+) -> (i32, TB, TB) {
+    kani::assume(t > i32::MIN);
+    match which {
+        LOWER => kani::assume(t == tl),
+        UPPER => kani::assume(t == tu),
+        _ => kani::assume(t != tl && t != tu),
+    }
+    let cur1 = if a_to_b {
+        kani::assume(cur0 >= t);
+        t - 1
+    } else {
+        kani::assume(cur0 < t);
+        t
+    };
+    let mut nlo = *lo;
+    let mut nup = *up;
+    if tl == t {
+        kani::assume(t_init(lo));
+        nlo = cross(lo, ga, gb, rw);
+    } else if t_init(lo) {
+        kani::assume(if a_to_b { !(t < tl && tl <= cur0) } else { !(cur0 < tl && tl < t) });
+    }
+    if tu == t {
+        kani::assume(t_init(up));
+        nup = cross(up, ga, gb, rw);
+    } else if t_init(up) {
+        kani::assume(if a_to_b { !(t < tu && tu <= cur0) } else { !(cur0 < tu && tu < t) });
+    }
+    (cur1, nlo, nup)
+}
+
+/// L2: crossing tick t in the given direction, with the loop's new current tick, leaves fee `inside` (A and B) of every
+/// range [tl, tu) unchanged. The bound that is not crossed may be initialised or not.
+fn l2<E: Eng>(which: u8, a_to_b: bool) {
+    let lo = any_tick();
+    let up = any_tick();
+    let tl: i32 = kani::any();
+    let tu: i32 = kani::any();
+    let t: i32 = kani::any();
+    let cur0: i32 = kani::any();
+    let ga: u128 = kani::any();
+    let gb: u128 = kani::any();
+    let rw = Rw::any();
+    kani::assume(tl < tu);
+    let (cur1, nlo, nup) = crossing(which, &lo, tl, &up, tu, t, cur0, a_to_b, ga, gb, &rw);
+
+    let i0 = fee_inside_h::<E>(cur0, &lo, tl, &up, tu, ga, gb);
+    let i1 = fee_inside_h::<E>(cur1, &nlo, tl, &nup, tu, ga, gb);
+    assert!(i0 == i1, "crossing leaves inside unchanged");
+
+    kani::cover!(t_init(&lo) && t_init(&up), "both bounds initialised");
+    if a_to_b {
+        kani::cover!(cur0 == t, "starting exactly on the tick");
+    }
+    if which == OTHER {
+        kani::cover!(t < tl && t_init(&lo), "crossed tick below the range");
+        kani::cover!(t > tu && t_init(&up), "crossed tick above the range");
+        kani::cover!(tl < t && t < tu && t_init(&lo) && t_init(&up), "crossed tick strictly inside the range");
+    } else {
+        kani::cover!(!t_init(&lo) || !t_init(&up), "other bound uninitialised");
+    }
+}
+
+// ------------------------------------------------------------------------------------------------
+// L3
+
+/// L3: `next_tick_modify_liquidity_update` on any stored tick: delta == 0 keeps the tick; first liquidity on an empty
+/// tick sets outside := global if tick_index <= cur else 0; a tick that stays in use (gross != 0 before and after)
+/// keeps `initialized` and both `outside` values, hence `inside` of every other range bounded by it (as lower or as
+/// upper bound, any second tick) is unchanged; removing the last liquidity resets the tick to the zero tick.
+fn l3<E: Eng>() {
+    let t = any_tick();
+    let o = any_tick();
+    let idx: i32 = kani::any();
+    let oidx: i32 = kani::any();
+    let cur: i32 = kani::any();
+    let ga: u128 = kani::any();
+    let gb: u128 = kani::any();
+    let rw = Rw::any();
+    let delta: i128 = kani::any();
+    let upper: bool = kani::any();
+    assume_tick_inv(&t);
+    kani::assume(idx != oidx);
+
+    let r = E::modify(&t, idx, cur, ga, gb, &rw, delta, upper);
+    kani::cover!(r.is_ok() && delta > 0 && !t_init(&t), "fresh initialisation");
+    kani::cover!(r.is_ok() && delta < 0 && t_init(&t), "decrease");
+    if let Ok(n) = r {
+        if delta == 0 {
+            assert!(same_tick(&n, &t));
+        } else if t_gross(&t) == 0 {
+            assert!(delta > 0);
+            assert!(t_init(&n) && t_gross(&n) != 0);
+            assert!(t_out_a(&n) == if idx <= cur { ga } else { 0 });
+            assert!(t_out_b(&n) == if idx <= cur { gb } else { 0 });
+            kani::cover!(idx == cur, "tick_index == current");
+        } else if t_gross(&n) != 0 {
+            assert!(t_init(&n));
+            assert!(t_out_a(&n) == t_out_a(&t) && t_out_b(&n) == t_out_b(&t));
+            // other ranges sharing this bound
+            let (a0, a1) = if idx < oidx {
+                (E::fee_inside(cur, &t, idx, &o, oidx, ga, gb), E::fee_inside(cur, &n, idx, &o, oidx, ga, gb))
+            } else {
+                (E::fee_inside(cur, &o, oidx, &t, idx, ga, gb), E::fee_inside(cur, &o, oidx, &n, idx, ga, gb))
+            };
+            assert!(a0 == a1, "inside of other ranges bounded by this tick unchanged");
+            kani::cover!(idx < oidx, "shared as lower bound");
+            kani::cover!(idx > oidx, "shared as upper bound");
+        } else {
+            assert!(same_tick(&n, &[0u8; 113]), "last liquidity removed: zero tick");
+            kani::cover!(true, "de-initialisation");
+        }
+    }
+}
+
+// ------------------------------------------------------------------------------------------------
+// L4
+
+pub(crate) fn any_pos() -> PB {
+    kani::any()
+}
+
+/// L4 (structure; the multiply itself is contract A1, Engine M): with `checked_mul_shift_right` an uninterpreted
+/// function F, fee_owed_x' == fee_owed_x + (F(L, inside_x - checkpoint_x mod 2^128) or 0 if F overflows)  (wrapping u64),
+/// checkpoint_x' == inside_x, liquidity' == L + delta, Err iff L + delta leaves u128.
+fn l4<E: Eng>() {
+    let p = any_pos();
+    let delta: i128 = kani::any();
+    let ia: u128 = kani::any();
+    let ib: u128 = kani::any();
+    let ri: [u128; 3] = kani::any();
+    let l = rd128(&p, 72);
+    let (ca, oa, cb, ob) = (rd128(&p, 96), rd64(&p, 112), rd128(&p, 120), rd64(&p, 136));
+
+    let r = E::pos_update(&p, delta, ia, ib, &ri);
+
+    // F on the arguments the property names; the memo table makes equal arguments give the value the code saw
+    let fa = memo::stub_checked_mul_shift_right(l, ia.wrapping_sub(ca));
+    let fb = memo::stub_checked_mul_shift_right(l, ib.wrapping_sub(cb));
+    let lnext = if delta >= 0 { l.checked_add(delta as u128) } else { l.checked_sub(delta.unsigned_abs()) };
+    kani::cover!(r.is_ok() && fa.is_err(), "overflowing credit A");
+    kani::cover!(r.is_ok() && matches!(fb, Ok(v) if v != 0), "non-zero credit B");
+    kani::cover!(r.is_err(), "liquidity error");
+    match r {
+        Ok(u) => {
+            assert!(u.fee_growth_checkpoint_a == ia && u.fee_growth_checkpoint_b == ib);
+            assert!(u.fee_owed_a == oa.wrapping_add(fa.unwrap_or(0)), "credit A = F(L, inside - checkpoint), 0 on overflow");
+            assert!(u.fee_owed_b == ob.wrapping_add(fb.unwrap_or(0)), "credit B = F(L, inside - checkpoint), 0 on overflow");
+            assert!(lnext == Some(u.liquidity));
+            if l == 0 {
+                assert!(u.fee_owed_a == oa && u.fee_owed_b == ob); // nothing earned before liquidity was added
+            }
+        }
+        Err(c) => {
+            assert!(lnext.is_none());
+            assert!(c == ecode(::whirlpool::errors::ErrorCode::LiquidityOverflow) || c == ecode(::whirlpool::errors::ErrorCode::LiquidityUnderflow));
+        }
+    }
+}
+
+// ------------------------------------------------------------------------------------------------
+// harnesses (Anchor functions, then their Pinocchio ports on the same bytes)
+
+/// L1 `next_fee_growths_inside` (tokens A, B), global += x at fixed current tick, cur < lower: inside unchanged; both bounds initialised, all u128 values incl. wrap-around
+// @verif prop=C07 tier=quick timeout=300
+#[kani::proof]
+#[kani::unwind(34)]
+#[kani::stub(alloc::fmt::format, stub_format)]
+#[kani::stub(<anchor_lang::error::Error as core::convert::From<::whirlpool::errors::ErrorCode>>::from, stub_err_from_code)]
+#[kani::stub(<::whirlpool::pinocchio::errors::UnifiedError as core::convert::From<::whirlpool::errors::ErrorCode>>::from, stub_unified_from_code)]
+fn c07_l1_below_anchor() {
+    l1::<Anchor>(BELOW);
+}
+
+/// L1 `next_fee_growths_inside` (tokens A, B), global += x at fixed current tick, lower <= cur < upper: inside grows by exactly x; both bounds initialised, all u128 values incl. wrap-around
+// @verif prop=C07 tier=quick timeout=300
+#[kani::proof]
+#[kani::unwind(34)]
+#[kani::stub(alloc::fmt::format, stub_format)]
+#[kani::stub(<anchor_lang::error::Error as core::convert::From<::whirlpool::errors::ErrorCode>>::from, stub_err_from_code)]
+#[kani::stub(<::whirlpool::pinocchio::errors::UnifiedError as core::convert::From<::whirlpool::errors::ErrorCode>>::from, stub_unified_from_code)]
+fn c07_l1_inside_anchor() {
+    l1::<Anchor>(INSIDE);
+}
+
+/// L1 `next_fee_growths_inside` (tokens A, B), global += x at fixed current tick, cur >= upper: inside unchanged; both bounds initialised, all u128 values incl. wrap-around
+// @verif prop=C07 tier=quick timeout=300
+#[kani::proof]
+#[kani::unwind(34)]
+#[kani::stub(alloc::fmt::format, stub_format)]
+#[kani::stub(<anchor_lang::error::Error as core::convert::From<::whirlpool::errors::ErrorCode>>::from, stub_err_from_code)]
+#[kani::stub(<::whirlpool::pinocchio::errors::UnifiedError as core::convert::From<::whirlpool::errors::ErrorCode>>::from, stub_unified_from_code)]
+fn c07_l1_above_anchor() {
+    l1::<Anchor>(ABOVE);
+}
+
+/// L1/L3 `next_fee_growths_inside` + `next_tick_modify_liquidity_update`: an uninitialised bound counts exactly like the tick the first deposit creates (all 3 combinations with an uninitialised bound), current tick below
+// @verif prop=C07 tier=quick timeout=300
+#[kani::proof]
+#[kani::unwind(34)]
+#[kani::stub(alloc::fmt::format, stub_format)]
+#[kani::stub(<anchor_lang::error::Error as core::convert::From<::whirlpool::errors::ErrorCode>>::from, stub_err_from_code)]
+#[kani::stub(<::whirlpool::pinocchio::errors::UnifiedError as core::convert::From<::whirlpool::errors::ErrorCode>>::from, stub_unified_from_code)]
+fn c07_conv_below_anchor() {
+    conv::<Anchor>(BELOW);
+}
+
+/// L1/L3 `next_fee_growths_inside` + `next_tick_modify_liquidity_update`: an uninitialised bound counts exactly like the tick the first deposit creates (all 3 combinations with an uninitialised bound), current tick inside
+// @verif prop=C07 tier=quick timeout=300
+#[kani::proof]
+#[kani::unwind(34)]
+#[kani::stub(alloc::fmt::format, stub_format)]
+#[kani::stub(<anchor_lang::error::Error as core::convert::From<::whirlpool::errors::ErrorCode>>::from, stub_err_from_code)]
+#[kani::stub(<::whirlpool::pinocchio::errors::UnifiedError as core::convert::From<::whirlpool::errors::ErrorCode>>::from, stub_unified_from_code)]
+fn c07_conv_inside_anchor() {
+    conv::<Anchor>(INSIDE);
+}
+
+/// L1/L3 `next_fee_growths_inside` + `next_tick_modify_liquidity_update`: an uninitialised bound counts exactly like the tick the first deposit creates (all 3 combinations with an uninitialised bound), current tick above
+// @verif prop=C07 tier=quick timeout=300
+#[kani::proof]
+#[kani::unwind(34)]
+#[kani::stub(alloc::fmt::format, stub_format)]
+#[kani::stub(<anchor_lang::error::Error as core::convert::From<::whirlpool::errors::ErrorCode>>::from, stub_err_from_code)]
+#[kani::stub(<::whirlpool::pinocchio::errors::UnifiedError as core::convert::From<::whirlpool::errors::ErrorCode>>::from, stub_unified_from_code)]
+fn c07_conv_above_anchor() {
+    conv::<Anchor>(ABOVE);
+}
+
+/// L2 `next_tick_cross_update` + `next_fee_growths_inside`: crossing initialised tick t leaves `inside` (A, B) of range [lower, upper) unchanged; t == lower, a_to_b (cur >= t before, t - 1 after)
+// @verif prop=C07 tier=quick timeout=300
+#[kani::proof]
+#[kani::unwind(34)]
+#[kani::stub(alloc::fmt::format, stub_format)]
+#[kani::stub(<anchor_lang::error::Error as core::convert::From<::whirlpool::errors::ErrorCode>>::from, stub_err_from_code)]
+#[kani::stub(<::whirlpool::pinocchio::errors::UnifiedError as core::convert::From<::whirlpool::errors::ErrorCode>>::from, stub_unified_from_code)]
+fn c07_l2_lower_down_anchor() {
+    l2::<Anchor>(LOWER, true);
+}
+
+/// L2 `next_tick_cross_update` + `next_fee_growths_inside`: crossing initialised tick t leaves `inside` (A, B) of range [lower, upper) unchanged; t == lower, b_to_a (cur < t before, t after)
+// @verif prop=C07 tier=quick timeout=300
+#[kani::proof]
+#[kani::unwind(34)]
+#[kani::stub(alloc::fmt::format, stub_format)]
+#[kani::stub(<anchor_lang::error::Error as core::convert::From<::whirlpool::errors::ErrorCode>>::from, stub_err_from_code)]
+#[kani::stub(<::whirlpool::pinocchio::errors::UnifiedError as core::convert::From<::whirlpool::errors::ErrorCode>>::from, stub_unified_from_code)]
+fn c07_l2_lower_up_anchor() {
+    l2::<Anchor>(LOWER, false);
+}
+
+/// L2 `next_tick_cross_update` + `next_fee_growths_inside`: crossing initialised tick t leaves `inside` (A, B) of range [lower, upper) unchanged; t == upper, a_to_b (cur >= t before, t - 1 after)
+// @verif prop=C07 tier=quick timeout=300
+#[kani::proof]
+#[kani::unwind(34)]
+#[kani::stub(alloc::fmt::format, stub_format)]
+#[kani::stub(<anchor_lang::error::Error as core::convert::From<::whirlpool::errors::ErrorCode>>::from, stub_err_from_code)]
+#[kani::stub(<::whirlpool::pinocchio::errors::UnifiedError as core::convert::From<::whirlpool::errors::ErrorCode>>::from, stub_unified_from_code)]
+fn c07_l2_upper_down_anchor() {
+    l2::<Anchor>(UPPER, true);
+}
+
+/// L2 `next_tick_cross_update` + `next_fee_growths_inside`: crossing initialised tick t leaves `inside` (A, B) of range [lower, upper) unchanged; t == upper, b_to_a (cur < t before, t after)
+// @verif prop=C07 tier=quick timeout=300
+#[kani::proof]
+#[kani::unwind(34)]
+#[kani::stub(alloc::fmt::format, stub_format)]
+#[kani::stub(<anchor_lang::error::Error as core::convert::From<::whirlpool::errors::ErrorCode>>::from, stub_err_from_code)]
+#[kani::stub(<::whirlpool::pinocchio::errors::UnifiedError as core::convert::From<::whirlpool::errors::ErrorCode>>::from, stub_unified_from_code)]
+fn c07_l2_upper_up_anchor() {
+    l2::<Anchor>(UPPER, false);
+}
+
+/// L2 `next_tick_cross_update` + `next_fee_growths_inside`: crossing initialised tick t leaves `inside` (A, B) of range [lower, upper) unchanged; t is neither bound (below / above / strictly inside the range), a_to_b (cur >= t before, t - 1 after)
+// @verif prop=C07 tier=quick timeout=300
+#[kani::proof]
+#[kani::unwind(34)]
+#[kani::stub(alloc::fmt::format, stub_format)]
+#[kani::stub(<anchor_lang::error::Error as core::convert::From<::whirlpool::errors::ErrorCode>>::from, stub_err_from_code)]
+#[kani::stub(<::whirlpool::pinocchio::errors::UnifiedError as core::convert::From<::whirlpool::errors::ErrorCode>>::from, stub_unified_from_code)]
+fn c07_l2_other_down_anchor() {
+    l2::<Anchor>(OTHER, true);
+}
+
+/// L2 `next_tick_cross_update` + `next_fee_growths_inside`: crossing initialised tick t leaves `inside` (A, B) of range [lower, upper) unchanged; t is neither bound (below / above / strictly inside the range), b_to_a (cur < t before, t after)
+// @verif prop=C07 tier=quick timeout=300
+#[kani::proof]
+#[kani::unwind(34)]
+#[kani::stub(alloc::fmt::format, stub_format)]
+#[kani::stub(<anchor_lang::error::Error as core::convert::From<::whirlpool::errors::ErrorCode>>::from, stub_err_from_code)]
+#[kani::stub(<::whirlpool::pinocchio::errors::UnifiedError as core::convert::From<::whirlpool::errors::ErrorCode>>::from, stub_unified_from_code)]
+fn c07_l2_other_up_anchor() {
+    l2::<Anchor>(OTHER, false);
+}
+
+/// L3 `next_tick_modify_liquidity_update`: initialisation convention outside := global iff tick_index <= cur; outside untouched while gross != 0 (so `inside` of ranges sharing the bound is unchanged); zero tick on de-initialisation
+// @verif prop=C07 tier=quick timeout=300
+#[kani::proof]
+#[kani::unwind(34)]
+#[kani::stub(alloc::fmt::format, stub_format)]
+#[kani::stub(<anchor_lang::error::Error as core::convert::From<::whirlpool::errors::ErrorCode>>::from, stub_err_from_code)]
+#[kani::stub(<::whirlpool::pinocchio::errors::UnifiedError as core::convert::From<::whirlpool::errors::ErrorCode>>::from, stub_unified_from_code)]
+fn c07_l3_modify_anchor() {
+    l3::<Anchor>();
+}
+
+/// L4 `next_position_modify_liquidity_update` (tokens A, B): credit structure with `checked_mul_shift_right` uninterpreted: owed += F(L, inside - checkpoint mod 2^128), +0 when F overflows; checkpoint := inside; liquidity += delta or error
+// @verif prop=C07 tier=quick timeout=300
+#[kani::proof]
+#[kani::unwind(34)]
+#[kani::stub(alloc::fmt::format, stub_format)]
+#[kani::stub(<anchor_lang::error::Error as core::convert::From<::whirlpool::errors::ErrorCode>>::from, stub_err_from_code)]
+#[kani::stub(<::whirlpool::pinocchio::errors::UnifiedError as core::convert::From<::whirlpool::errors::ErrorCode>>::from, stub_unified_from_code)]
+#[kani::stub(::whirlpool::math::bit_math::checked_mul_shift_right, memo::stub_checked_mul_shift_right)]
+fn c07_l4_credit_anchor() {
+    l4::<Anchor>();
+}
+
+/// L1 `pino_next_fee_growths_inside` (tokens A, B), global += x at fixed current tick, cur < lower: inside unchanged; both bounds initialised, all u128 values incl. wrap-around
+// @verif prop=C07 tier=quick timeout=300
+#[kani::proof]
+#[kani::unwind(34)]
+#[kani::stub(alloc::fmt::format, stub_format)]
+#[kani::stub(<anchor_lang::error::Error as core::convert::From<::whirlpool::errors::ErrorCode>>::from, stub_err_from_code)]
+#[kani::stub(<::whirlpool::pinocchio::errors::UnifiedError as core::convert::From<::whirlpool::errors::ErrorCode>>::from, stub_unified_from_code)]
+fn c07_l1_below_pino() {
+    l1::<Pino>(BELOW);
+}
+
+/// L1 `pino_next_fee_growths_inside` (tokens A, B), global += x at fixed current tick, lower <= cur < upper: inside grows by exactly x; both bounds initialised, all u128 values incl. wrap-around
+// @verif prop=C07 tier=quick timeout=300
+#[kani::proof]
+#[kani::unwind(34)]
+#[kani::stub(alloc::fmt::format, stub_format)]
+#[kani::stub(<anchor_lang::error::Error as core::convert::From<::whirlpool::errors::ErrorCode>>::from, stub_err_from_code)]
+#[kani::stub(<::whirlpool::pinocchio::errors::UnifiedError as core::convert::From<::whirlpool::errors::ErrorCode>>::from, stub_unified_from_code)]
+fn c07_l1_inside_pino() {
+    l1::<Pino>(INSIDE);
+}
+
+/// L1 `pino_next_fee_growths_inside` (tokens A, B), global += x at fixed current tick, cur >= upper: inside unchanged; both bounds initialised, all u128 values incl. wrap-around
+// @verif prop=C07 tier=quick timeout=300
+#[kani::proof]
+#[kani::unwind(34)]
+#[kani::stub(alloc::fmt::format, stub_format)]
+#[kani::stub(<anchor_lang::error::Error as core::convert::From<::whirlpool::errors::ErrorCode>>::from, stub_err_from_code)]
+#[kani::stub(<::whirlpool::pinocchio::errors::UnifiedError as core::convert::From<::whirlpool::errors::ErrorCode>>::from, stub_unified_from_code)]
+fn c07_l1_above_pino() {
+    l1::<Pino>(ABOVE);
+}
+
+/// L1/L3 `pino_next_fee_growths_inside` + `pino_next_tick_modify_liquidity_update`: an uninitialised bound counts exactly like the tick the first deposit creates (all 3 combinations with an uninitialised bound), current tick below
+// @verif prop=C07 tier=quick timeout=300
+#[kani::proof]
+#[kani::unwind(34)]
+#[kani::stub(alloc::fmt::format, stub_format)]
+#[kani::stub(<anchor_lang::error::Error as core::convert::From<::whirlpool::errors::ErrorCode>>::from, stub_err_from_code)]
+#[kani::stub(<::whirlpool::pinocchio::errors::UnifiedError as core::convert::From<::whirlpool::errors::ErrorCode>>::from, stub_unified_from_code)]
+fn c07_conv_below_pino() {
+    conv::<Pino>(BELOW);
+}
+
+/// L1/L3 `pino_next_fee_growths_inside` + `pino_next_tick_modify_liquidity_update`: an uninitialised bound counts exactly like the tick the first deposit creates (all 3 combinations with an uninitialised bound), current tick inside
+// @verif prop=C07 tier=quick timeout=300
+#[kani::proof]
+#[kani::unwind(34)]
+#[kani::stub(alloc::fmt::format, stub_format)]
+#[kani::stub(<anchor_lang::error::Error as core::convert::From<::whirlpool::errors::ErrorCode>>::from, stub_err_from_code)]
+#[kani::stub(<::whirlpool::pinocchio::errors::UnifiedError as core::convert::From<::whirlpool::errors::ErrorCode>>::from, stub_unified_from_code)]
+fn c07_conv_inside_pino() {
+    conv::<Pino>(INSIDE);
+}
+
+/// L1/L3 `pino_next_fee_growths_inside` + `pino_next_tick_modify_liquidity_update`: an uninitialised bound counts exactly like the tick the first deposit creates (all 3 combinations with an uninitialised bound), current tick above
+// @verif prop=C07 tier=quick timeout=300
+#[kani::proof]
+#[kani::unwind(34)]
+#[kani::stub(alloc::fmt::format, stub_format)]
+#[kani::stub(<anchor_lang::error::Error as core::convert::From<::whirlpool::errors::ErrorCode>>::from, stub_err_from_code)]
+#[kani::stub(<::whirlpool::pinocchio::errors::UnifiedError as core::convert::From<::whirlpool::errors::ErrorCode>>::from, stub_unified_from_code)]
+fn c07_conv_above_pino() {
+    conv::<Pino>(ABOVE);
+}
+
+/// L2 `next_tick_cross_update` + `pino_next_fee_growths_inside`: crossing initialised tick t leaves `inside` (A, B) of range [lower, upper) unchanged; t == lower, a_to_b (cur >= t before, t - 1 after)
+// @verif prop=C07 tier=quick timeout=300
+#[kani::proof]
+#[kani::unwind(34)]
+#[kani::stub(alloc::fmt::format, stub_format)]
+#[kani::stub(<anchor_lang::error::Error as core::convert::From<::whirlpool::errors::ErrorCode>>::from, stub_err_from_code)]
+#[kani::stub(<::whirlpool::pinocchio::errors::UnifiedError as core::convert::From<::whirlpool::errors::ErrorCode>>::from, stub_unified_from_code)]
+fn c07_l2_lower_down_pino() {
+    l2::<Pino>(LOWER, true);
+}
+
+/// L2 `next_tick_cross_update` + `pino_next_fee_growths_inside`: crossing initialised tick t leaves `inside` (A, B) of range [lower, upper) unchanged; t == lower, b_to_a (cur < t before, t after)
+// @verif prop=C07 tier=quick timeout=300
+#[kani::proof]
+#[kani::unwind(34)]
+#[kani::stub(alloc::fmt::format, stub_format)]
+#[kani::stub(<anchor_lang::error::Error as core::convert::From<::whirlpool::errors::ErrorCode>>::from, stub_err_from_code)]
+#[kani::stub(<::whirlpool::pinocchio::errors::UnifiedError as core::convert::From<::whirlpool::errors::ErrorCode>>::from, stub_unified_from_code)]
+fn c07_l2_lower_up_pino() {
+    l2::<Pino>(LOWER, false);
+}
+
+/// L2 `next_tick_cross_update` + `pino_next_fee_growths_inside`: crossing initialised tick t leaves `inside` (A, B) of range [lower, upper) unchanged; t == upper, a_to_b (cur >= t before, t - 1 after)
+// @verif prop=C07 tier=quick timeout=300
+#[kani::proof]
+#[kani::unwind(34)]
+#[kani::stub(alloc::fmt::format, stub_format)]
+#[kani::stub(<anchor_lang::error::Error as core::convert::From<::whirlpool::errors::ErrorCode>>::from, stub_err_from_code)]
+#[kani::stub(<::whirlpool::pinocchio::errors::UnifiedError as core::convert::From<::whirlpool::errors::ErrorCode>>::from, stub_unified_from_code)]
+fn c07_l2_upper_down_pino() {
+    l2::<Pino>(UPPER, true);
+}
+
+/// L2 `next_tick_cross_update` + `pino_next_fee_growths_inside`: crossing initialised tick t leaves `inside` (A, B) of range [lower, upper) unchanged; t == upper, b_to_a (cur < t before, t after)
+// @verif prop=C07 tier=quick timeout=300
+#[kani::proof]
+#[kani::unwind(34)]
+#[kani::stub(alloc::fmt::format, stub_format)]
+#[kani::stub(<anchor_lang::error::Error as core::convert::From<::whirlpool::errors::ErrorCode>>::from, stub_err_from_code)]
+#[kani::stub(<::whirlpool::pinocchio::errors::UnifiedError as core::convert::From<::whirlpool::errors::ErrorCode>>::from, stub_unified_from_code)]
+fn c07_l2_upper_up_pino() {
+    l2::<Pino>(UPPER, false);
+}
+
+/// L2 `next_tick_cross_update` + `pino_next_fee_growths_inside`: crossing initialised tick t leaves `inside` (A, B) of range [lower, upper) unchanged; t is neither bound (below / above / strictly inside the range), a_to_b (cur >= t before, t - 1 after)
+// @verif prop=C07 tier=quick timeout=300
+#[kani::proof]
+#[kani::unwind(34)]
+#[kani::stub(alloc::fmt::format, stub_format)]
+#[kani::stub(<anchor_lang::error::Error as core::convert::From<::whirlpool::errors::ErrorCode>>::from, stub_err_from_code)]
+#[kani::stub(<::whirlpool::pinocchio::errors::UnifiedError as core::convert::From<::whirlpool::errors::ErrorCode>>::from, stub_unified_from_code)]
+fn c07_l2_other_down_pino() {
+    l2::<Pino>(OTHER, true);
+}
+
+/// L2 `next_tick_cross_update` + `pino_next_fee_growths_inside`: crossing initialised tick t leaves `inside` (A, B) of range [lower, upper) unchanged; t is neither bound (below / above / strictly inside the range), b_to_a (cur < t before, t after)
+// @verif prop=C07 tier=quick timeout=300
+#[kani::proof]
+#[kani::unwind(34)]
+#[kani::stub(alloc::fmt::format, stub_format)]
+#[kani::stub(<anchor_lang::error::Error as core::convert::From<::whirlpool::errors::ErrorCode>>::from, stub_err_from_code)]
+#[kani::stub(<::whirlpool::pinocchio::errors::UnifiedError as core::convert::From<::whirlpool::errors::ErrorCode>>::from, stub_unified_from_code)]
+fn c07_l2_other_up_pino() {
+    l2::<Pino>(OTHER, false);
+}
+
+/// L3 `pino_next_tick_modify_liquidity_update`: initialisation convention outside := global iff tick_index <= cur; outside untouched while gross != 0 (so `inside` of ranges sharing the bound is unchanged); zero tick on de-initialisation
+// @verif prop=C07 tier=quick timeout=300
+#[kani::proof]
+#[kani::unwind(34)]
+#[kani::stub(alloc::fmt::format, stub_format)]
+#[kani::stub(<anchor_lang::error::Error as core::convert::From<::whirlpool::errors::ErrorCode>>::from, stub_err_from_code)]
+#[kani::stub(<::whirlpool::pinocchio::errors::UnifiedError as core::convert::From<::whirlpool::errors::ErrorCode>>::from, stub_unified_from_code)]
+fn c07_l3_modify_pino() {
+    l3::<Pino>();
+}
+
+/// L4 `pino_next_position_modify_liquidity_update` (tokens A, B): credit structure with `checked_mul_shift_right` uninterpreted: owed += F(L, inside - checkpoint mod 2^128), +0 when F overflows; checkpoint := inside; liquidity += delta or error
+// @verif prop=C07 tier=quick timeout=300
+#[kani::proof]
+#[kani::unwind(34)]
+#[kani::stub(alloc::fmt::format, stub_format)]
+#[kani::stub(<anchor_lang::error::Error as core::convert::From<::whirlpool::errors::ErrorCode>>::from, stub_err_from_code)]
+#[kani::stub(<::whirlpool::pinocchio::errors::UnifiedError as core::convert::From<::whirlpool::errors::ErrorCode>>::from, stub_unified_from_code)]
+#[kani::stub(::whirlpool::math::bit_math::checked_mul_shift_right, memo::stub_checked_mul_shift_right)]
+fn c07_l4_credit_pino() {
+    l4::<Pino>();
+}
+
+/// vacuity twin: flipping the lower bound WITHOUT the loop's tick shift changes `inside` — must FAIL
+// @verif prop=C07 tier=quick timeout=300 twin
+#[kani::proof]
+#[kani::unwind(34)]
+#[kani::stub(alloc::fmt::format, stub_format)]
+#[kani::stub(<anchor_lang::error::Error as core::convert::From<::whirlpool::errors::ErrorCode>>::from, stub_err_from_code)]
+#[kani::stub(<::whirlpool::pinocchio::errors::UnifiedError as core::convert::From<::whirlpool::errors::ErrorCode>>::from, stub_unified_from_code)]
+fn c07_twin_must_fail() {
+    let lo = any_tick();
+    let up = any_tick();
+    let tl: i32 = kani::any();
+    let tu: i32 = kani::any();
+    let cur: i32 = kani::any();
+    let ga: u128 = kani::any();
+    let gb: u128 = kani::any();
+    let rw = Rw::any();
+    kani::assume(tl < tu && t_init(&lo) && t_init(&up));
+    kani::assume(tl <= cur && cur < tu);
+    let nlo = cross(&lo, ga, gb, &rw);
+    let i0 = Anchor::fee_inside(cur, &lo, tl, &up, tu, ga, gb);
+    let i1 = Anchor::fee_inside(cur, &nlo, tl, &up, tu, ga, gb);
+    assert!(i0 == i1, "twin: flipping a bound without moving the current tick must change inside");
+}
